@@ -13,8 +13,7 @@ class C04(SessionCheck):
             'point of the worker loop, 0-6 outstanding requests, over 3 transports x 14 profiles, compared step by step with the model; '
             '(incl. EOF in the middle of a message whose start tag has arrived, under both framings) plus real-socket sessions (1.0-only and 1.1 servers alternating) whose server closes at EVERY byte offset of a scripted response stream (quick: a sample of offsets; '
             'thorough: every offset) or after the k-th request, with client threads issuing requests meanwhile; elapsed time of every call measured. '
-            'A peer that trickles notifications or the reply in pieces for several timeouts; a stalled peer with a burst of 64 asynchronous requests and a synchronous call; DEPENDS operations and close_session after the loss. '
-            'Non-trivial = history >= 8 commands / socket run with >= 2 calls.')
+            'A peer that trickles notifications or the reply in pieces for several timeouts; a stalled peer with a burst of 64 asynchronous requests and a synchronous call; DEPENDS operations and close_session after the loss. Non-trivial = history >= 8 commands / socket run with >= 2 calls.')
     ASSUMPTIONS = ['a request created after the worker delivered its final error but before the session is marked disconnected is not failed; '
                    'it times out (model: lateBorn) - allowed by the statement (returns within its timeout)']
 
